@@ -45,27 +45,53 @@ pub fn run_header(src: &str) -> Outcome {
     }
 }
 
+/// A %grmtools value of `n` nested `[`: run in a child process (the replay binary on the plain header driver), because
+/// the failure looked for is a stack overflow, which aborts the process it happens in.
+pub fn run_header_deep(n: usize) -> Outcome {
+    let expected = "a value or a non-empty list of renderable errors, promptly".to_string();
+    let text = format!("%grmtools{{a: {}", "[".repeat(n));
+    let w = json!({"driver": "c12_header", "input": {"text": text}}).to_string();
+    let exe = match std::env::current_exe() { Ok(e) => e, Err(_) => return Outcome { fails: false, observed: "cannot find the replay binary".into(), expected } };
+    match std::process::Command::new(exe).arg("--witness").arg(&w).output() {
+        Err(e) => Outcome { fails: false, observed: format!("cannot start the child process: {}", e), expected },
+        Ok(out) => {
+            let so = String::from_utf8_lossy(&out.stdout).to_string();
+            if out.status.success() && so.contains("NOW-PASSES") { Outcome { fails: false, observed: so.trim().to_string(), expected } }
+            else if so.contains("STILL-FAILS") { Outcome { fails: true, observed: so.trim().to_string(), expected } }
+            else { Outcome { fails: true, observed: format!("the process parsing {} nested '[' died ({}): {}", n, out.status, String::from_utf8_lossy(&out.stderr).lines().filter(|l| l.contains("overflow")).next().unwrap_or("")), expected } }
+        }
+    }
+}
+
 const TOKS: &[&str] = &["a", ":", ",", "[", "]", "1", "99999999999999999999999", "\"s\"", "!", "::", "(", ")", "*", " ", "é", "}", "{", "\"", "\\", "\u{2028}", "\u{85}"];
 
 // ---------------------------------------------------------------- lex specifications
-fn lex_once(src: String) -> Result<String, String> {
-    use lrlex::{DefaultLexerTypes, LRNonStreamingLexerDef, LexerDef};
-    let r = catch_unwind(AssertUnwindSafe(|| LRNonStreamingLexerDef::<DefaultLexerTypes<u32>>::from_str(&src)));
+fn lex_judge<T>(src: &str, r: std::thread::Result<Result<T, Vec<lrlex::LexBuildError>>>, entry: &str) -> Result<String, String> {
     match r {
-        Err(_) => Err("panic".into()),
+        Err(_) => Err(format!("panic in {}", entry)),
         Ok(Ok(_)) => Ok("Ok".into()),
         Ok(Err(errs)) => {
-            if errs.is_empty() { return Err("Err with an empty error list".into()); }
+            if errs.is_empty() { return Err(format!("{}: Err with an empty error list", entry)); }
             for e in &errs {
                 let sps = cfgrammar::Spanned::spans(e);
-                if sps.is_empty() { return Err("error without a span".into()); }
+                if sps.is_empty() { return Err(format!("{}: error without a span", entry)); }
                 for sp in sps {
-                    if !span_ok(&src, sp) { return Err(format!("error span {}..{} cannot be rendered", sp.start(), sp.end())); }
+                    if !span_ok(src, sp) { return Err(format!("{}: error span {}..{} cannot be rendered", entry, sp.start(), sp.end())); }
                 }
             }
             Ok(format!("Err({} error(s))", errs.len()))
         }
     }
+}
+// both ways of parsing a lex specification: with the flags of its %grmtools section (from_str) and with flags handed in
+// (new_with_options)
+fn lex_once(src: String) -> Result<String, String> {
+    use lrlex::{DefaultLexerTypes, LRNonStreamingLexerDef, LexerDef, DEFAULT_LEX_FLAGS};
+    let r = catch_unwind(AssertUnwindSafe(|| LRNonStreamingLexerDef::<DefaultLexerTypes<u32>>::from_str(&src)));
+    let a = lex_judge(&src, r, "from_str")?;
+    let r = catch_unwind(AssertUnwindSafe(|| LRNonStreamingLexerDef::<DefaultLexerTypes<u32>>::new_with_options(&src, DEFAULT_LEX_FLAGS)));
+    let b = lex_judge(&src, r, "new_with_options")?;
+    Ok(format!("{} / {}", a, b))
 }
 
 pub fn run_lex(src: &str) -> Outcome {
@@ -80,7 +106,7 @@ pub fn run_lex(src: &str) -> Outcome {
     }
 }
 
-const LEXTOKS: &[&str] = &["%%", "\n", "\n", " ", "\t", "a", "'a'", "\"b\"", ";", "<", ">", "+", "AA", "%s", "%x", ",", "\\", "\u{0085}", "\u{200E}", "\u{2028}", "//", "é", "[", "*", "\r", "%grmtools{nest_limit: 4294967296}\n", "%grmtools{size_limit: 18446744073709551615, dfa_size_limit: 5}\n", "%grmtools{!octal, nest_limit: 3}\n"];
+const LEXTOKS: &[&str] = &["%%", "\n", "\n", " ", "\t", "a", "'a'", "\"b\"", ";", "<", ">", "+", "AA", "%s", "%x", ",", "\\", "\u{0085}", "\u{200E}", "\u{2028}", "//", "é", "[", "*", "\r", "%grmtools{nest_limit: 4294967296}\n", "%grmtools{size_limit: 18446744073709551615, dfa_size_limit: 5}\n", "%grmtools{!octal, nest_limit: 3}\n", "%grmtools{", "%grmtools", "%grmtools{a:}\n", "%grmtools{nest_limit: }", "%grmtools{nest_limit: 3,,}\n"];
 
 pub fn search_lex(tier: &str) -> Option<Value> {
     // a small exhaustive grid first: rule lines whose regex ends in backslashes and white space of every class
@@ -94,6 +120,15 @@ pub fn search_lex(tier: &str) -> Option<Value> {
             } } } }
         }
     }
+    // start-state declarations: names of every class separated by white space of every class (one or more bytes wide),
+    // with duplicate and ill-formed names after the first
+    for d in ["%s", "%x", "%S", "%X"] { for w0 in [" ", "\t", "\u{0085}"] { for n1 in ["AA", "é", "1A", "A_1"] {
+        for sep in [" ", "\t", "\u{0085}", "\u{200E}", "\u{200F}", "\u{2028}", "  ", "\u{000B}", "\u{0085}\u{0085}"] { for n2 in ["AA", "BB", "1A", "é", ""] { for tail in ["\n%%\na 'a'\n", "\n", "", " AA\n%%\n"] {
+            let s = format!("{}{}{}{}{}{}", d, w0, n1, sep, n2, tail);
+            let o = run_lex(&s);
+            if o.fails { return Some(witness("c12_lex", json!({"text": s}), &o)); }
+        } } }
+    } } }
     let n = if tier == "thorough" { 400_000 } else { 40_000 };
     let mut st: u64 = 0x9E3779B97F4A7C15;
     let mut next = |m: usize| { st = st.wrapping_mul(6364136223846793005).wrapping_add(1442695040888963407); ((st >> 33) as usize) % m };
@@ -148,6 +183,17 @@ pub fn run_yacc(src: &str) -> Outcome {
 const YTOKS: &[&str] = &["%%", "\n", "\n", " ", "\t", "a", "B", "'x'", "\"y\"", ";", ":", "|", "%token", "%left", "%start", "%prec", "%epp", "%expect", "%avoid_insert", "%implicit_tokens", "%parse-param", "%actiontype", "{", "}", "/*", "*/", "//", "/", "*", "\\", "'", "\"", "é", "1", "::", "\r", "->", "<", ">", "%expect-unused", "%grmtools{yacckind: Grmtools}"];
 
 pub fn search_yacc(tier: &str) -> Option<Value> {
+    // declarations with arguments of every class: ASCII and non-ASCII digits, numerics that are not digits, too-large
+    // numbers, names, quoted strings, nothing at all; separated by white space of every class
+    for pre in ["", "%start a\n"] { for decl in ["%expect", "%expect-rr", "%token", "%left", "%right", "%nonassoc", "%start", "%epp", "%avoid_insert", "%implicit_tokens", "%parse-param", "%actiontype"] {
+        for sep in [" ", "\t", "\u{0085}", "\u{2028}", ""] { for arg in ["1", "\u{0661}", "\u{00BD}", "\u{FF11}", "\u{2163}", "1\u{0661}", "\u{0661}1", "", "99999999999999999999", "a", "'x'", "\"y\"", "é", "-1", "+1", "1a", "a \u{0661}", "x: u8", "a \"é"] {
+            for tail in ["\n%%\na: ;", "\n", "", " 2\n%%\na: 'x';\n"] {
+                let s = format!("{}{}{}{}{}", pre, decl, sep, arg, tail);
+                let o = run_yacc(&s);
+                if o.fails { return Some(witness("c12_yacc", json!({"text": s}), &o)); }
+            }
+        } }
+    } }
     let n = if tier == "thorough" { 300_000 } else { 30_000 };
     let mut st: u64 = 0xD1B54A32D192ED03;
     let mut next = |m: usize| { st = st.wrapping_mul(6364136223846793005).wrapping_add(1442695040888963407); ((st >> 33) as usize) % m };
@@ -165,6 +211,11 @@ pub fn search_yacc(tier: &str) -> Option<Value> {
 pub fn search(tag: &str, tier: &str) -> Option<Value> {
     if tag.contains(".yacc.") { return search_yacc(tier); }
     if tag.contains(".lex.") { return search_lex(tier); }
+    // nesting as deep as a 100 KB line allows
+    for n in [1_000usize, 30_000, 100_000] {
+        let o = run_header_deep(n);
+        if o.fails { return Some(witness("c12_header_deep", json!({"nested": n}), &o)); }
+    }
     let depth = if tier == "thorough" { 5 } else { 4 };
     // the witness should be of the kind the failed obligation is about
     let want_hang = tag.contains("terminates") || tag.contains(".dec");
